@@ -32,7 +32,7 @@ def benign():
     for mp in sorted(glob.glob(os.path.join(V, "benign", "*", "*", "meta.json"))):
         m = json.load(open(mp)); pid = mp.split(os.sep)[-3]; n = mp.split(os.sep)[-2]
         cell = lambda s: str(s).replace("|", "\\|").replace("\n", " ")
-        out.append("| %s/%s | %s | %s | %s |" % (pid, n, m.get("kind", "?"), cell(m.get("summary", ""))[:260], cell(m.get("outcome", ""))[:260]))
+        out.append("| %s/%s | %s | %s | %s |" % (pid, n, m.get("kind", "?"), cell(m.get("summary", ""))[:260], cell(m.get("outcome", ""))[:460]))
     return "\n".join(out)
 
 
